@@ -48,6 +48,7 @@ const KINDS: usize = 20;
 fn main() {
     let args = Args::parse();
     let mut sh = Shard::new("C04", &args);
+    vh::shard::quiet_panics();
     // Every size at least twice in quick.
     let n = args.cases(SIZES * 2, SIZES * 100);
     for i in 0..n {
@@ -59,7 +60,7 @@ fn main() {
         }
         let mut rng = args.rng().fork(case);
         let flen = 28 + (case % SIZES) as usize;
-        run_case(&mut rng, &mut sh, case, flen);
+        sh.guard_case(case, |sh| run_case(&mut rng, sh, case, flen));
     }
     sh.finish();
 }
